@@ -11,3 +11,4 @@ import EasyNet.Lemmas.ConsumerSim
 import EasyNet.Lemmas.ChunkIndep
 import EasyNet.Lemmas.RUSpec
 import EasyNet.Props.C01
+import EasyNet.Props.C02
